@@ -9,7 +9,9 @@ from pathlib import Path
 
 from py2v import Untranslatable
 
-REPO_SRC = Path('/repo/src/biogeme/sampling_of_alternatives')
+from common import REPO  # honours VERIF_REPO (test hook of ./check)
+
+REPO_SRC = REPO / 'src' / 'biogeme' / 'sampling_of_alternatives'
 
 
 def _parse(name):
@@ -300,7 +302,7 @@ def generate():
     t1, f1 = _parse('sampling_of_alternatives.py')
     t2, f2 = _parse('sampling_context.py')
     t3, f3 = _parse('choice_set_generation.py')
-    rel = lambda f: f.replace('/repo/', '')
+    rel = lambda f: f.replace(str(REPO) + '/', '')
     return ('From Coq Require Import ZArith List String Reals.\n'
             'From BV Require Import Model.Sampling.\n'
             'Import ListNotations.\n\n'
